@@ -536,5 +536,24 @@ add("C02", lambda tier: start_jobs(tier, 1, F=0, types=(1,)))
 add("C14", lambda tier: start_jobs(tier, 0, types=(1,)))
 
 # ---- strengthening after the third mutation round
+def winredir_job():
+    return Job("h_winredir", model=False, shim=False,
+               defines={"_WIN32": 1, "_WIN64": 1},
+               cflags=["-I" + os.path.join(VERIF, "model", "win")],
+               unwind=10, timeout=600, solvers=("cadical", "minisat"),
+               bounds={"calls": "one redirect_init + redirect_destroy", "streams": 3, "redirect_types": 7,
+                       "outcomes": "every Win32/CRT call it makes succeeds or fails with any code 1..20000"})
+
+add("C10", lambda tier: [winredir_job()])
+META["C10"]["units"] = START_UNITS + ["reproc/src/redirect.windows.c + handle.windows.c + error.windows.c (constants) "
+                                      "under redirect.c's redirect_init / redirect_destroy, compiled with -D_WIN32 -D_WIN64"]
+META["C10"]["assumptions"] = START_ASSUME + [
+    "Windows units: GetStdHandle / CreateFileW / CloseHandle / _fileno / _get_osfhandle / utf16_from_utf8 / "
+    "pipe_init / pipe_nonblocking / pipe_destroy are stubs over a table of 8 handle objects; each succeeds or fails "
+    "with any code 1..20000 except ERROR_BROKEN_PIPE (the library's own 'stream absent' value); each parent "
+    "standard handle is present, absent (NULL) or GetStdHandle fails"]
+META["C10"]["outside"] = START_OUTSIDE + ["Windows: pipe.windows.c, utf.windows.c and CreateProcessW's use of the handles "
+                                          "(only redirect_init/redirect_destroy are encoded there)"]
+add("C05", lambda tier: [winredir_job()])
 add("C18", lambda tier: [static_job(windows=True)])
 add("C03", lambda tier: [cxx_job(2, "clone")])
